@@ -11,6 +11,7 @@ import (
 	"sort"
 	"strings"
 
+	"github.com/hashicorp/hcl-lang/decoder"
 	"github.com/hashicorp/hcl-lang/lang"
 	"github.com/hashicorp/hcl-lang/reference"
 	"github.com/hashicorp/hcl-lang/schema"
@@ -195,6 +196,23 @@ func runC10(run *Run, replay string) {
 	}
 	originCases(run, rand.New(rand.NewSource(subSeed(run.Res.Seed, 424242))), n)
 	exprOriginCases(run, rand.New(rand.NewSource(subSeed(run.Res.Seed, 434343))), n*10)
+	// whole-path collection under generated schemas: dynamic-block bodies over label-dependent bodies whose
+	// nested blocks carry extensions of their own (count / for_each / self references), resolved and
+	// unresolved lookups side by side; every other base a generic schema
+	for i := 0; i < n/4; i++ {
+		r := rand.New(rand.NewSource(subSeed(run.Res.Seed, 900000+i)))
+		for _, sc := range genScenarios(r, ScenarioOpts{Gen: GenOpts{DynFocus: i%2 == 0, MaxDepth: 2}}) {
+			d, _ := sc.W.Dec.Path(sc.Main.Path)
+			res := safeCall("CollectReferenceOrigins", func() (interface{}, error) { return d.CollectReferenceOrigins() })
+			run.Res.Evaluations++
+			if res.Panic != "" || res.Err != nil {
+				continue
+			}
+			if collectOriginsCase(run, sc, res.Val.(reference.Origins)) {
+				run.Count("collectorigins_generated_schemas")
+			}
+		}
+	}
 	for i := 0; i < n; i++ {
 		r := rand.New(rand.NewSource(subSeed(run.Res.Seed, i)))
 		sc, cfg := tfScenario(r)
@@ -352,7 +370,7 @@ func runC08(run *Run, replay string) {
 				}
 				q := Query{Name: "CompletionAtPos", Pos: &pos, File: "main.tf"}
 				nref := 0
-				for _, c := range cands.List {
+				for i, c := range cands.List {
 					if c.Kind != lang.ReferenceCandidateKind {
 						continue
 					}
@@ -392,6 +410,11 @@ func runC08(run *Run, replay string) {
 								Detail: c.Label, Replay: m})
 						}
 					}
+					// accepting the candidate and asking for the definition: what is found is the declaration the label names
+					// (the name written at the declaration is the label's last step).  All self.* candidates, a sample of the others.
+					if strings.HasPrefix(c.Label, "self.") || (len(c.Label)+cut+i)%7 == 0 {
+						acceptRoundTrip(run, nsrc, files2, c, sc.Main.Ctx.Functions, m)
+					}
 					for _, t := range ts {
 						if t.RangePtr != nil && t.RangePtr.Start.Byte <= pos.Byte && pos.Byte <= t.RangePtr.End.Byte && len(t.NestedTargets) == 0 && len(ts) == 1 {
 							run.Violate(Violation{Key: "C08/candidate-is-the-attribute-being-edited", Rule: "never the attribute being edited itself", Func: "Reference.CompletionAtPos",
@@ -411,6 +434,83 @@ func runC08(run *Run, replay string) {
 		}
 	}
 	_ = schema.Reference{}
+}
+
+// acceptRoundTrip applies a reference candidate's edit to the buffer, collects again and asks for the definition
+// of the reference now written there: every declaration found that is an attribute (its definition range is
+// the attribute's name) must carry the name the label ends with.
+func acceptRoundTrip(run *Run, buf string, files map[string]string, c lang.Candidate, funcs map[string]schema.FunctionSignature, loc map[string]interface{}) {
+	er := c.TextEdit.Range
+	if er.Filename != "main.tf" || er.Start.Byte < 0 || er.End.Byte < er.Start.Byte || er.End.Byte > len(buf) {
+		return
+	}
+	last := c.Label
+	if i := strings.LastIndex(last, "."); i >= 0 {
+		last = last[i+1:]
+	}
+	if !isIdent(last) || strings.ContainsAny(c.Label[len(c.Label)-len(last):], "[]\"") {
+		return
+	}
+	nsrc := buf[:er.Start.Byte] + c.TextEdit.NewText + buf[er.End.Byte:]
+	files3 := map[string]string{}
+	for k, v := range files {
+		files3[k] = v
+	}
+	files3["main.tf"] = nsrc
+	w := newWorld()
+	pd := w.AddPath("root", tfSchema(), files3, funcs)
+	w.Collect()
+	d, err := w.Dec.Path(pd.Path)
+	if err != nil {
+		return
+	}
+	pos, ok := lcTable([]byte(nsrc))[er.Start.Byte+1]
+	if !ok {
+		return
+	}
+	res := safeCall("ReferenceTargetsForOriginAtPos", func() (interface{}, error) {
+		return w.Dec.ReferenceTargetsForOriginAtPos(pd.Path, "main.tf", pos)
+	})
+	_ = d
+	run.Res.Evaluations++
+	run.Count("accepted_candidates_resolved")
+	if res.Panic != "" || res.Err != nil {
+		return
+	}
+	// among the attribute declarations found (definition range = an attribute's name) one carries the name the
+	// label ends with (others may be declarations of unknown type that may contain it, e.g. in another file)
+	var names []string
+	found := false
+	for _, rt := range res.Val.(decoder.ReferenceTargets) {
+		if rt.DefRangePtr == nil || rt.Path.Path != "root" {
+			continue
+		}
+		src, ok := files3[rt.DefRangePtr.Filename]
+		if !ok || rt.DefRangePtr.End.Byte > len(src) || rt.DefRangePtr.Start.Byte > rt.DefRangePtr.End.Byte {
+			continue
+		}
+		name := src[rt.DefRangePtr.Start.Byte:rt.DefRangePtr.End.Byte]
+		if !isIdent(name) || name == "count" || name == "for_each" {
+			return // a block header, or the attribute standing for count.index / each.*
+		}
+		names = append(names, fmt.Sprintf("%s at %v", name, rt.DefRangePtr))
+		if name == last {
+			found = true
+		}
+	}
+	if len(names) == 0 {
+		return
+	}
+	run.Count("accepted_candidates_resolved_to_attribute")
+	if !found {
+		m := map[string]interface{}{}
+		for k, v := range loc {
+			m[k] = v
+		}
+		m["accepted_buffer"] = nsrc
+		run.Violate(Violation{Key: "C08/accepted-candidate-resolves-to-another-declaration", Rule: "accepting a reference candidate produces a reference that go-to-definition resolves to that declaration",
+			Func: "CompletionAtPos + ReferenceTargetsForOriginAtPos", Detail: fmt.Sprintf("candidate %q accepted: the definitions found are the attributes %v", c.Label, names), Replay: m})
+	}
 }
 
 // selfOutsideOracle: wherever "self." is being typed inside a body that does not enable self
